@@ -879,7 +879,7 @@ func c28Run(c *fw.Ctx) {
 
 func init() {
 	fw.Register(&fw.Check{
-		ID: "C28",
+		ID:   "C28",
 		Rule: "cases 0-15: EXHAUSTIVE enumeration of every string of length 0..4 (thorough: 0..5) over the 14-character alphabet {a A 1 _ - ' \" \\ $ space + é 😀 tab}, both raw and wrapped in '...' and \"...\"; a candidate is a name iff the real tm lexer returns exactly one ID / soft-keyword / quoted_id / scon token for it (cross-checked against the lexer rules transcribed from textmapper.tm); cases 16-23: random longer names (bare, keywords and near-keywords of tm/Go/C++, quoted over a 65-symbol alphabet with escapes, control characters, non-ASCII letters/digits, combining marks, invalid UTF-8). For every admissible name: ident.Produce in UpperCase (what terminals get) and, for bare names, CamelCase (what nonterminals get) must be non-empty, match [A-Za-z_][A-Za-z0-9_]*, pass ident.IsValid and go/token.IsIdentifier and conform to the style; CamelLower and CamelCase-of-the-terminal-ID (derived uses with documented fallbacks) are checked for character set and style only. Later cases, grammar level: (a) one admissible name declared as terminal (lexer-only grammar, go and ts targets) or nonterminal: if it compiles, every grammar.Syms[].ID is checked the same way, IDs must be pairwise distinct, and the generated token/token.go (go/parser) or token.ts must declare exactly UNAVAILABLE, one constant per terminal in order, NumTokens; (b) collision pairs - designed ones (separator/case variants, quoted vs bare spellings, explicit lexeme ids, predefined eoi/invalid_token, generated opt/list/template-instance nonterminals) and derived ones (random bare name + identifier-preserving respelling; the precondition 'identifiers coincide' is confirmed by calling ident.Produce) - must make the compiler return an error while the control grammar (second symbol renamed) compiles cleanly; (c) grammars with 2-7 random admissible names. A name is non-trivial when admissible; a grammar when it compiled and passed",
 		Assumptions: []string{
 			"target-language validity is judged by the ASCII pattern [A-Za-z_][A-Za-z0-9_]* plus go/token.IsIdentifier (Go keywords); C++/TypeScript reserved words are not consulted (UpperCase/CamelCase results cannot be lower-case keywords)",
